@@ -408,7 +408,11 @@ class UniversalPrecondition(Precondition):
     def _print_self(
         self, should_simplify: bool = True, decimal_digits: int = DEFAULT_DECIMAL_DIGITS
     ) -> str:
-        if len(self.operands) == 0:
+        if (
+            len(self.operands) == 0
+            and len(self.equality_preconditions) == 0
+            and len(self.inequality_preconditions) == 0
+        ):
             return ""
 
         internal_condition_string = super()._print_self(should_simplify, decimal_digits)
